@@ -320,6 +320,9 @@ func (c *Conn) Stat() network.ConnStats {
 	return network.ConnStats{Stats: network.Stats{Direction: c.dir, Opened: c.opened, Limited: c.limited}, NumStreams: len(c.GetStreams())}
 }
 
+// SetDirection sets who dialed the connection (inbound = the remote dialed us).
+func (c *Conn) SetDirection(d network.Direction) { c.dir = d }
+
 func (c *Conn) GetStreams() []network.Stream {
 	c.smu.Lock()
 	defer c.smu.Unlock()
